@@ -11,5 +11,12 @@ for f in sorted(glob.glob(os.path.join(V, "evidence", "C*.json"))):
     e = json.load(open(f)); c = e["coverage"]
     rows.append(f"| {e['property_id']} | {c['obligations']} | {c['evaluations']} | {c.get('known_findings', 0)} |")
 d = re.sub(r"\| id \| obligations \| instructions inspected \| known findings \|\n(\|.*\n)+", "\n".join(rows) + "\n", d)
+kf = json.load(open(os.path.join(V, "known_findings.json")))["findings"]
+frows = ["| property | obligation key | triage | failing input / schedule / history |", "|---|---|---|---|"]
+for k in kf:
+    tri = "fixed by `%s`" % k["commit"] if k["status"] == "fixed" else "**known** (not repaired)"
+    what = re.sub(r"^fixed: property=\S+ \S+ ", "", k["what"]).replace("|", "/")
+    frows.append(f"| {k['property']} | `{k['key']}` | {tri} | {what} |")
+d = re.sub(r"<!-- FINDINGS-TABLE-BEGIN -->\n.*?<!-- FINDINGS-TABLE-END -->", lambda m: "<!-- FINDINGS-TABLE-BEGIN -->\n" + "\n".join(frows) + "\n<!-- FINDINGS-TABLE-END -->", d, flags=re.S)
 open(os.path.join(V, "DESIGN.md"), "w").write(d)
 print("tables refreshed")
